@@ -40,8 +40,15 @@ mod verif_kani_resp_codec {
         None
     }
 
-    fn cpuid_stub(_leaf: u32, _sub_leaf: u32) -> core::arch::x86_64::CpuidResult {
-        core::arch::x86_64::CpuidResult { eax: 0, ebx: 0, ecx: 0, edx: 0 }
+    unsafe fn memchr_raw_stub(needle: u8, start: *const u8, end: *const u8) -> Option<*const u8> {
+        let mut p = start;
+        while p < end {
+            if *p == needle {
+                return Some(p);
+            }
+            p = p.add(1);
+        }
+        None
     }
 
     // @harness: h_codec_total_n4
@@ -68,7 +75,7 @@ mod verif_kani_resp_codec {
     // @complete: false
     #[kani::proof]
     #[kani::unwind(8)]
-    #[kani::stub(core::core_arch::x86::cpuid::__cpuid_count, cpuid_stub)]
+    #[kani::stub(memchr::memchr::memchr_raw, memchr_raw_stub)]
     fn h_probe_memchr() {
         let (buf, len) = any_input::<4>();
         let r = memchr::memchr(b'\r', &buf[..len]);
